@@ -21,10 +21,10 @@ def syntax_gen(ctx, seed, ntrees, maxstmts, cfg, tag, module="Syntax", trees_cmd
     return gp, len(out)
 
 
-def family_gen(ctx, cfg_syntax, tag):
+def family_gen(ctx, cfg_syntax, tag, scope=None):
     """ShapeFam.tla: exhaustive families of abstract programs printed by TLC, then printed as text (with the static
     verdict and the expected name diagnostics) by the Syntax machine"""
-    g = ctx.tlc("ShapeFam", "ShapeFam_%s.cfg" % ctx.tier, workers=1, label="ShapeFam.tla: exhaustive source-shape and name families", timeout=1800)
+    g = ctx.tlc("ShapeFam", "ShapeFam_%s.cfg" % (scope or ctx.tier), workers=1, label="ShapeFam.tla: exhaustive source-shape and name families", timeout=1800)
     if g["tlc_error"] or not g["finished"] or g["inv_violated"]:
         raise Infra("ShapeFam failed: %s" % g["tlc_error"])
     trees = [json.loads(x[4:]) for x in g["printed"] if x.startswith("GEN ")]
@@ -319,9 +319,16 @@ def c19(ctx):
                 ctx.add_violation("C19: %s | history: %s | step %d: long-lived -> %s %s ; fresh -> %s %s" % (v["what"], json.dumps(o["hist"]), v["at"], st["long"][:200], st["longpub"][:200], st["fresh"][:200], st["freshpub"][:200]), rp)
             else:
                 raise Infra("candidate did not reproduce: %s" % v)
-    # (2) navigation at every position of generated scripts (valid ones and their name edits)
+    # (2) navigation at every position of generated scripts (valid ones and their name edits), and of the exhaustive
+    #     family "a variable in every syntactic position that can hold one" (ShapeFam.tla)
     n = 150 if ctx.tier == "quick" else 1500
     gp, cnt = syntax_gen(ctx, ctx.seed + 3, n, "names", "Syntax_static1.cfg", "nav", trees_cmd="chk-trees")
+    gpf, _, cntf = family_gen(ctx, "Syntax_static1.cfg", "navfam", scope="names")
+    with open(gp, "a") as f:
+        for i, line in enumerate(read_ndjson(gpf)):
+            line["id"] = cnt + i
+            f.write(json.dumps(line) + "\n")
+    ctx.cov["navigation_family_scripts"] = cntf
     op2 = os.path.join(ctx.work, "nav_obs.ndjson")
     s2 = ctx.vh_json(["nav-check", gp, op2], timeout=3600)
     r2 = ctx.tlc_trace("FrontTrace", "FrontTrace_C19n.cfg", op2, label="FrontTrace judges hover / definition at every position against the token table", timeout=3600)
